@@ -464,7 +464,7 @@ class Executor:
             if x.__class__ is not int and self.fx is not None and not a['signed']:
                 return self.fx.from_uint(x)
             if x.__class__ is not int:
-                return ('D', mk('i2f' if a['signed'] else 'u2f', 64, x))
+                return ('D', mk('i2f' if a['signed'] else 'u2f', 64, x, a['bits']))
             v = sgn(x, a['bits']) if a['signed'] else x
             return ('D', f2bits(float(v)))
         if ka == 'float' and kb == 'int':
